@@ -1038,6 +1038,8 @@ def branch_tags(fn, before, result):
             tags.add('iib:empty-text-removed')
         if texts_before.count(' ') > texts_after.count(' '):
             tags.add('iib:line-start-space-removed')
+        if any(isinstance(b, boxes.InlineBox) and not b.children and b.trailing_collapsible_space for b, _ in nodes):
+            tags.add('iib:emptied-inline-box')
     if fn == 'bii':
         lines_after = sum(1 for b, _ in nodes if isinstance(b, boxes.LineBox))
         if lines_after > bt.kind_count_ser(before, 'LineBox'):
@@ -1082,6 +1084,8 @@ EXPECTED_BRANCHES = {
     'inline-in-block': ['iib:line-in-anonymous-block', 'iib:single-line', 'iib:absolute-in-line', 'iib:float-in-line',
                         'iib:leading-space-flag', 'iib:trailing-space-flag', 'iib:empty-text-removed',
                         'iib:line-start-space-removed', 'error:AssertionError'],
+    'whitespace-then-inline-in-block': ['iib:empty-text-removed', 'iib:trailing-space-flag', 'iib:leading-space-flag',
+                                        'iib:emptied-inline-box'],
     'block-in-inline': ['bii:line-split', 'bii:empty-inline-piece', 'error:AssertionError'],
     'table-fixup': ['atb:wrapper-block', 'atb:wrapper-inline', 'atb:anonymous-TableBox', 'atb:anonymous-InlineTableBox',
                     'atb:anonymous-TableRowGroupBox', 'atb:anonymous-TableRowBox', 'atb:anonymous-TableCellBox',
@@ -1302,7 +1306,7 @@ class C08(PropCheck):
             sec.add(sx.line('boxtype', list(value)), docs.outcome(box_type), meta={'fn': 'boxtype', 'value': list(value)},
                     tags=['boxtype'])
 
-    def _tree_case(self, sec, fn, node, tags=(), nontrivial=None, prepare=None):
+    def _tree_case(self, sec, fn, node, tags=(), nontrivial=None, prepare=None, prepared=True):
         box = bt.make_real(node)
         if prepare is not None:
             try:
@@ -1319,7 +1323,8 @@ class C08(PropCheck):
         out = docs.outcome(call)
         changed = out != sx.dumps(before)
         branch = branch_tags(fn, before, result[0]) if result else [f'error:{out[4:]}']
-        sec.add(sx.line(fn, before), out, meta={'fn': fn, 'tree': node, 'prepared': prepare is not None},
+        sec.add(sx.line(fn, before), out,
+                meta={'fn': fn, 'tree': node, 'prepared': prepared if prepare is not None else False},
                 nontrivial=changed if nontrivial is None else nontrivial,
                 tags=list(tags) + branch + [f'size:{size_class(n_before)}'])
         return True
@@ -1362,6 +1367,27 @@ class C08(PropCheck):
             node = bt.random_tree(rng, rng.choice([1, 2, 3, 4]), pool=mixed, p_out=0.15,
                                   line_boxes=0.01 if rng.random() < 0.2 else 0.0)
             self._tree_case(sec, 'iib', node, tags=[f'root:{node[0]}'])
+
+        sec = run.section(
+            'whitespace-then-inline-in-block', 'inline_in_block on the real output of process_whitespace, as '
+            'element_to_box / create_anonymous_boxes chain them: inline content with many white-space-only runs, so '
+            'that text boxes are emptied (space collapsed with a preceding one) and inline boxes lose all their '
+            'children; the leading / trailing_collapsible_space flags are part of the compared tree; non-trivial = '
+            'an emptied text box was removed')
+        spaced = ['TextBox'] * 7 + ['InlineBox'] * 5 + ['InlineBlockBox', 'BlockBox']
+
+        def whitespace(box):
+            build.process_whitespace(box)
+            return box
+        for _ in range(run.n(1500, 30000)):
+            node = bt.random_tree(rng, rng.choice([2, 3, 4]), pool=spaced, p_out=0.05, width=(1, 1, 2, 2, 3, 4))
+            for text_node in bt.text_nodes(node):
+                if rng.random() < 0.45:
+                    text_node[5] = rng.choice([' ', ' ', '  ', '\n', ' \t', 'a ', ' a', ''])
+                text_node[4] = '-'
+            if node[0] in ('TextBox', 'InlineBox'):
+                node = ['BlockBox', '-', 'normal', [None, None, None], '-', '', [node]]
+            self._tree_case(sec, 'iib', node, prepare=whitespace, prepared='pw', tags=['after-pw'])
 
         sec = run.section(
             'block-in-inline', 'block_in_inline on the real output of inline_in_block (blocks nested in inline '
@@ -1624,8 +1650,11 @@ class C08(PropCheck):
         build = build_mod()
         node, fn = meta['tree'], meta['fn']
         box = bt.make_real(copy.deepcopy(node))
-        if meta.get('prepared'):
+        if meta.get('prepared') == 'pw':
+            build.process_whitespace(box)
+        elif meta.get('prepared'):
             box = build.inline_in_block(box) if 'LineBox' not in bt.kinds_of(node) else listify(box)
+        flags = trailing_flag_expectations(box) if fn == 'iib' else []
         source = real_text(box)
         segments = box_segments(box)
         expectations = transform_expectations(box) if fn == 'ptt' else None
@@ -1679,6 +1708,13 @@ class C08(PropCheck):
             what = item_violation(result)
             if what and ((fn == 'flex') == ('flex item' in what)):
                 return what
+        if fn == 'iib' and not has_running(node):
+            for b in flags:
+                if not b.trailing_collapsible_space:
+                    return ('inline_in_block forgot a collapsed space: the last child of a '
+                            f'{type(b).__name__} was a text box emptied by process_whitespace (its space collapsed '
+                            'with a preceding one, leading_collapsible_space set), yet the box does not carry '
+                            'trailing_collapsible_space, the break opportunity after it')
         if fn == 'iib' and not malformed and not has_running(node):
             return iib_violation(result)
         if fn == 'bii' and not malformed and not has_running(node) and meta.get('prepared'):
@@ -2195,6 +2231,20 @@ def item_violation(box):
 def known_blockify(value, result):
     return tuple(value[:2]) in (('inline', 'table'), ('inline', 'flex'), ('inline', 'grid')) and \
         tuple(result[:2]) == ('block', 'flow')
+
+
+def trailing_flag_expectations(box):
+    """Boxes (with children, not running) whose last child is an empty text box with leading_collapsible_space:
+    a collapsed space that inline_in_block must remember as `trailing_collapsible_space` of the box when it
+    removes the empty text (it is the line-break opportunity split_inline_box looks for)."""
+    from weasyprint.formatting_structure import boxes
+    out = []
+    for b, _ in walk_real(box):
+        kids = list(getattr(b, 'children', ()))
+        if (kids and not b.is_running() and isinstance(kids[-1], boxes.TextBox) and not kids[-1].text and
+                kids[-1].leading_collapsible_space):
+            out.append(b)
+    return out
 
 
 def iib_violation(box):
